@@ -141,18 +141,18 @@ def check(run, repo):
                   sample='[%s] forwarded to pandas: %s' % (label, sorted(want)))
     # --- sheet 1: ordinary + composition + lists, three rows with different subsets and empty cells ------------
     rows = [
-        [(' name ', '  H2O '), ('element.H', a('nH')), ('element.O', a('nO')), ('vib_wavenumber', a('w1')),
-         ('vib_wavenumber.1', a('w2')), ('vib_wavenumber.2', NAN), ('rot_temperature', a('t1')),
-         ('potentialenergy', a('E1')), ('phase', NAN), ('list.sites', a('s1')), ('list.sites.1', a('s2')),
-         ('dict.misc.alpha', a('d1')), ('dict.misc.beta', a('d2'))],
-        [(' name ', 'CO'), ('element.H', NAN), ('element.O', a('mO')), ('vib_wavenumber', NAN),
-         ('vib_wavenumber.1', NAN), ('vib_wavenumber.2', a('w3')), ('rot_temperature', NAN),
-         ('potentialenergy', NAN), ('phase', ' G '), ('list.sites', NAN), ('list.sites.1', NAN),
-         ('dict.misc.alpha', NAN), ('dict.misc.beta', a('d3'))],
-        [(' name ', NAN), ('element.H', NAN), ('element.O', NAN), ('vib_wavenumber', NAN),
-         ('vib_wavenumber.1', NAN), ('vib_wavenumber.2', NAN), ('rot_temperature', NAN),
-         ('potentialenergy', NAN), ('phase', NAN), ('list.sites', NAN), ('list.sites.1', NAN),
-         ('dict.misc.alpha', NAN), ('dict.misc.beta', NAN)],
+        [(' name ', '  H2O '), ('element.H', a('nH')), ('element.O ', a('nO')), ('vib_wavenumber', a('w1')),
+         ('vib_wavenumber.1', a('w2')), ('vib_wavenumber.2', NAN), (' rot_temperature', a('t1')),
+         (' potentialenergy  ', a('E1')), ('phase', NAN), ('list.sites', a('s1')), ('list.sites.1', a('s2')),
+         ('dict.misc.alpha', a('d1')), ('  dict.misc.beta ', a('d2'))],
+        [(' name ', 'CO'), ('element.H', NAN), ('element.O ', a('mO')), ('vib_wavenumber', NAN),
+         ('vib_wavenumber.1', NAN), ('vib_wavenumber.2', a('w3')), (' rot_temperature', NAN),
+         (' potentialenergy  ', NAN), ('phase', ' G '), ('list.sites', NAN), ('list.sites.1', NAN),
+         ('dict.misc.alpha', NAN), ('  dict.misc.beta ', a('d3'))],
+        [(' name ', NAN), ('element.H', NAN), ('element.O ', NAN), ('vib_wavenumber', NAN),
+         ('vib_wavenumber.1', NAN), ('vib_wavenumber.2', NAN), (' rot_temperature', NAN),
+         (' potentialenergy  ', NAN), ('phase', NAN), ('list.sites', NAN), ('list.sites.1', NAN),
+         ('dict.misc.alpha', NAN), ('  dict.misc.beta ', NAN)],
     ]
     I, out, m, fn = run_reader(repo, rows)
     ok = isinstance(out, ListV) and len(out) == 3
